@@ -447,7 +447,9 @@ func litFromModel(v V) *tw.Expr {
 		return floatLit(v.F)
 	case refint.KStr:
 		e := tw.Str(v.S)
-		if strings.Contains(v.S, "\"") && !strings.Contains(v.S, "'") {
+		// a quote inside is written with a backslash when it is the delimiter: both ways of writing occur
+		switch hasD, hasS := strings.Contains(v.S, "\""), strings.Contains(v.S, "'"); {
+		case hasD && !hasS && len(v.S)%2 == 1, hasS && !hasD, hasS && hasD && len(v.S)%2 == 1:
 			e.Quote = "'"
 		}
 		return e
